@@ -103,6 +103,10 @@ class Mesh:
         actual vertices, edges, blocks and other stuff to be inserted into
         blockMeshDict. After this has been done, the above objects
         cease to have any function or influence on mesh."""
+        if self.is_assembled:
+            # blocks and lists are in place already (clear() undoes that)
+            return
+
         # first, collect data about patches and merged stuff
         for entity in self.depot:
             if isinstance(entity, Operation):
